@@ -48,6 +48,9 @@ type Inst struct {
 
 	// FbCancel: the fallback function (kind func) cancels the execution's context before returning
 	FbCancel bool `json:"fb_cancel,omitempty"`
+	// FbCancelInListener: the fallback's own OnFailure listener cancels the execution's context: the cancellation lands
+	// after the inner failure was classified and before the fallback would be applied, so it is not applied
+	FbCancelInListener bool `json:"fb_cancel_in_listener,omitempty"`
 
 	// cache
 	Key string `json:"key,omitempty"`
@@ -110,6 +113,9 @@ func (in Inst) describe() string {
 		c := ""
 		if in.FbCancel {
 			c = " cancels"
+		}
+		if in.FbCancelInListener {
+			c += " OnFailure-cancels"
 		}
 		return fmt.Sprintf("FB{%s->(%d,%s)%s h=%v}", in.FbKind, in.FbVal, in.FbErr, c, in.Conds)
 	case "cache":
